@@ -82,7 +82,12 @@ func (s *Modifier) ModifyRequest(req *http.Request) error {
 // will be a 404. ModifyResponse will return a 404 for any path that is defined in s.explictPaths
 // and that does not exist locally, even if that file does exist in s.rootPath.
 func (s *Modifier) ModifyResponse(res *http.Response) error {
-	reqpth := filepath.Clean(res.Request.URL.Path)
+	// The request path is anchored at "/" before it is cleaned, so that no
+	// sequence of ".." elements can climb above the root. A path read off the
+	// wire always starts with a slash, but a URL built or rewritten by other
+	// code (url.Modifier, an API caller) may be relative: cleaning
+	// "../outside/secret" as it stands keeps the leading "..".
+	reqpth := filepath.Clean("/" + res.Request.URL.Path)
 	fpth := filepath.Join(s.rootPath, reqpth)
 
 	if _, ok := s.explicitPaths[reqpth]; ok {
